@@ -165,7 +165,7 @@ pub fn sweep(ctx: &Ctx, label: &str, pool: &[PoolName], k: usize, params: &TreeP
                         }
                     }
                     acc.evals += 1;
-                    match run_history(&refs) {
+                    match run_history_rendering(&refs) {
                         Ok(el) => {
                             for &preset in presets {
                                 let text = match subject::guarded(|| subject::render(&el, preset, false)) {
@@ -285,9 +285,23 @@ fn chains(ctx: &Ctx, pool: &[PoolName], max_depth: usize) {
     }
 }
 
+/// names whose PascalCase forms fold onto each other together with names that equal such a form
+/// plus a number: a disambiguating suffix can collide with a natural name
+pub fn suffix_pool() -> Vec<PoolName> {
+    ["a", "A", "a1", "A1", "a_1", "foo", "Foo", "foo1", "r-a1", "r_foo1", "a2"]
+        .iter()
+        .map(|n| PoolName { name: n, category: "suffix", element: true })
+        .collect()
+}
+
 pub fn run(ctx: &Ctx) {
     ctx.set("exhaustive", json!(true));
     let pool = pool(&[]);
+    let concat: Vec<PoolName> = ADV.iter().filter(|p| p.category == "concat").cloned().collect();
+    sweep(ctx, "concatenation pool, 3-subsets, <=3 nodes, <=1 decorated, root named from the subset", &concat, 3,
+          &TreeParams { min_nodes: 1, max_nodes: 3, max_decorated: 1, root_from_subset: true, shard: (0, 1) }, true);
+    sweep(ctx, "suffix-collision pool, 3-subsets, <=4 nodes, undecorated", &suffix_pool(), 3,
+          &TreeParams { min_nodes: 2, max_nodes: 4, max_decorated: 0, root_from_subset: false, shard: (0, 1) }, true);
     match ctx.tier {
         crate::ctx::Tier::Quick => {
             sweep(ctx, "2-subsets, 3 nodes, <=1 decorated", &pool, 2,
